@@ -259,8 +259,16 @@ def check(run):
     cases = gen_cases(run, L)
     run.coverage["case_lines"] = len(cases)
     all_diffs = []
-    for label, prog in (("debug", dbg), ("release", rel)):
-        flat, mo, io = run_pair(run, drv, prog, cases, "c02" + label)
+    # third pass: the debug build with a logger that accepts every level and formats every record (as under RUST_LOG=trace): the
+    # arguments of the library's own log lines are evaluated — a panic hidden in one is a panic of the decoder
+    import os, stat
+    os.makedirs(run.workdir, exist_ok=True)
+    logged = os.path.join(run.workdir, "codec_logged.sh")
+    with open(logged, "w") as f:
+        f.write("#!/bin/sh\nZVT_HARNESS_LOG=1 exec %s \"$@\"\n" % dbg)
+    os.chmod(logged, os.stat(logged).st_mode | stat.S_IEXEC)
+    for label, prog in (("debug", dbg), ("release", rel), ("debug+log", logged)):
+        flat, mo, io = run_pair(run, drv, prog, cases, "c02" + label.replace("+", "_"))
         if mo is None:
             continue
         all_diffs += analyse(run, flat, mo, io, label)
